@@ -157,6 +157,21 @@ mod s6 {
     }
 }
 
+mod s7 {
+    // one identifier for a struct, a tagged struct and an enum: A2ML keeps a name space per kind of type
+    a2lfile::a2ml_specification! {
+        <SameName>
+        struct Timing { uint; uchar; };
+        taggedstruct Timing { "T" uint; ("R" int)*; };
+        enum Timing { "FAST" = 1, "SLOW" = 2 };
+        block "IF_DATA" taggedunion {
+            "S" struct Timing;
+            "TS" taggedstruct Timing;
+            "E" enum Timing;
+        };
+    }
+}
+
 pub fn specs() -> Vec<SpecCase> {
     let point = || T::Struct(vec![sc("int"), sc("int")]);
     let color = || T::Enum(vec![("RED".into(), Some(1)), ("GREEN".into(), Some(2)), ("BLUE".into(), Some(16))]);
@@ -270,6 +285,16 @@ pub fn specs() -> Vec<SpecCase> {
                     false,
                     false
                 ),
+            ])
+        ),
+        spec_case!(
+            s7,
+            SameName,
+            SAMENAME_TEXT,
+            T::TaggedUnion(vec![
+                tg("S", Some(T::Struct(vec![sc("uint"), sc("uchar")])), false, false, false),
+                tg("TS", Some(T::TaggedStruct(vec![tg("T", Some(sc("uint")), false, false, false), tg("R", Some(sc("int")), false, true, false)])), false, false, false),
+                tg("E", Some(T::Enum(vec![("FAST".into(), Some(1)), ("SLOW".into(), Some(2))])), false, false, false),
             ])
         ),
         spec_case!(
@@ -525,6 +550,10 @@ pub fn run(args: &Args) -> Report {
             }
             rep.bump("shape-mismatch");
             run_batch(&mut rep, &s, &text, &insts, false);
+            // the same content under the specification's own text constant: whatever does not conform to it is flagged
+            // invalid by the generic reader and never reaches the typed code (decided by the model through the tie)
+            rep.bump("foreign-content-own-definition");
+            run_batch(&mut rep, &s, s.text, &insts, false);
         }
         rep.sample(format!("{}: {}", s.name, want));
     }
